@@ -79,6 +79,16 @@ def mask_for(rng, form, N, C, sp, binary):
     return t
 
 
+def positive_per_item(t):
+    """every batch item of the mask gets a positive sum (a zero-sum weight makes the weighted NCC 0/0)"""
+    n_items = t["shape"][0]
+    per = len(t["data"]) // n_items
+    for n in range(n_items):
+        if sum(t["data"][n * per:(n + 1) * per]) == 0:
+            t["data"][n * per] = 1.0
+    return t
+
+
 def bad_mask(rng, N, C, sp):
     """a mask shape that masked_loss must reject"""
     kind = rng.choice(["batch", "chan", "spatial"])
@@ -143,7 +153,7 @@ def make_cases(ctx, n):
             sel = (i // len(kinds)) % 5
             if sel in (1, 2, 3):
                 form = ["11", "N1", "1C", "NC"][(i // (5 * len(kinds)) + sel) % 4]
-                c["mask"] = mask_for(rng, form, N, C, sp, sel == 1)       # binary or soft weights, every (1|N, 1|C) form
+                c["mask"] = positive_per_item(mask_for(rng, form, N, C, sp, sel == 1))       # binary or soft weights, every (1|N, 1|C) form
             elif sel == 4 and rng.random() < 0.5:
                 c["mask"] = bad_mask(rng, N, C, sp)
                 c["malformed"] = c["mask"] is not None
